@@ -146,7 +146,7 @@ Hashable(v) == v.t \in {"none", "bool", "dec", "int", "float", "str", "lambda", 
                \/ (v.t = "tuple" /\ \A i \in 1..Len(v.items) : v.items[i].t \in {"none", "bool", "dec", "int", "float", "str"})
 
 \* a in b
-Contains(h, a, b) ==
+PyContains(h, a, b) ==
     CASE b.t = "str" -> IF a.t = "str" THEN Bool(Len(a.s) = 0 \/ FindFrom(b.s, a.s, 1) # 0)
                         ELSE IF a.t = "opaque" THEN Unspec("opaque") ELSE TypeErr
       [] b.t = "list" -> LET i == AnyEq(h, Items(h, b), a, 1) IN IF i = -1 THEN Unspec("eq") ELSE Bool(i # 0)
@@ -175,8 +175,8 @@ BinApply(h, op, a, b) ==
       \* Python evaluates a <= b natively; for the totally ordered types we specify it is not (b < a)
       [] op = "<=" -> R(h, NotRes(CmpRes(Lt(h, b, a))))
       [] op = ">=" -> R(h, NotRes(CmpRes(Lt(h, a, b))))
-      [] op = "in" -> R(h, Contains(h, a, b))
-      [] op = "not in" -> R(h, NotRes(Contains(h, a, b)))
+      [] op = "in" -> R(h, PyContains(h, a, b))
+      [] op = "not in" -> R(h, NotRes(PyContains(h, a, b)))
       [] OTHER -> R(h, ParserErr)
 
 UnaryApply(h, op, a) ==
@@ -394,13 +394,13 @@ RECURSIVE StripSetR(_, _)
 StripSetR(s, cs) == IF Len(s) > 0 /\ s[Len(s)] \in cs THEN StripSetR(SubSeq(s, 1, Len(s) - 1), cs) ELSE s
 PyWs == {9, 10, 11, 12, 13, 28, 29, 30, 31, 32}
 
-RECURSIVE ReplaceAll(_, _, _, _, _)
+RECURSIVE PyReplaceAll(_, _, _, _, _)
 \* s.replace(old, new, count) for non-empty old; count < 0: all
-ReplaceAll(s, old, new, count, from) ==
+PyReplaceAll(s, old, new, count, from) ==
     IF count = 0 THEN SubSeq(s, from, Len(s))
     ELSE LET p == FindFrom(s, old, from) IN
          IF p = 0 THEN SubSeq(s, from, Len(s))
-         ELSE SubSeq(s, from, p - 1) \o new \o ReplaceAll(s, old, new, count - 1, p + Len(old))
+         ELSE SubSeq(s, from, p - 1) \o new \o PyReplaceAll(s, old, new, count - 1, p + Len(old))
 
 RECURSIVE SplitOn(_, _, _, _)
 \* s.split(sep, maxsplit) for non-empty sep: sequence of cps
@@ -571,7 +571,7 @@ CallAtomic(h, name, args) ==
              IF ~IsIntRep(cnt) THEN R(h, cnt)
              ELSE IF a2.t # "str" \/ a3.t # "str" THEN R(h, TypeErr)
              ELSE IF Len(a2.s) = 0 THEN R(h, Unspec("replace of empty string"))
-             ELSE R(h, Str(ReplaceAll(a1.s, a2.s, a3.s, IF cnt.sign = 1 THEN -1 ELSE BoundVal(cnt), 1)))
+             ELSE R(h, Str(PyReplaceAll(a1.s, a2.s, a3.s, IF cnt.sign = 1 THEN -1 ELSE BoundVal(cnt), 1)))
     [] name = "pretty" ->
         IF n = 0 \/ n > 2 THEN R(h, ArityErr)
         ELSE IF a1.t = "dict" THEN
